@@ -146,7 +146,7 @@ fn finish_case(e: &mut Ent, insn: Insn, er: [u32; 8], ccr: u8, patches: Vec<(u32
     let avoid: Vec<u32> = addr.into_iter().collect();
     let pc = e.code_addr(code.len() as u32, &avoid);
     let bus = e.bus_cfg();
-    (StepCase { code, pc, er, ccr, patches, bus, irq: None }, Tag { insn, value, bit, addr, same_reg })
+    (StepCase { code, pc, er, ccr, patches, bus, irq: None, primer: None }, Tag { insn, value, bit, addr, same_reg })
 }
 
 pub fn classify(case: &StepCase, j: &Judged, t: &Tag, stats: &mut Stats) {
@@ -196,6 +196,9 @@ pub fn classify(case: &StepCase, j: &Judged, t: &Tag, stats: &mut Stats) {
 
 pub fn run(ctx: &Ctx) -> i32 {
     if let Some(v) = &ctx.replay {
+        if crate::checks::soup::is_soup_replay(v) {
+            return crate::checks::soup::replay(ctx, P, v);
+        }
         return replay_step(ctx, P, v);
     }
     let fs = forms();
@@ -271,5 +274,8 @@ pub fn run(ctx: &Ctx) -> i32 {
     extra.insert("nontrivial_fraction".into(), json!(nt_share));
     extra.insert("forms".into(), json!(fs.len()));
     let rule = "cases = the 14 bit instructions x {Rd, @ERd, @aa:8} x {#imm, Rn where defined}: exhaustive over 256 operand bytes x 8 bit numbers x C per form, all operand / bit-number / address registers, all bit-number register values 0-255, crossed with proptest-generated register files, operand addresses (RAM, DRAM, vector area, @aa:8 page without port DR / timer registers), upper bytes, code placement; oracle = reference model post-state (addressed bit, other seven bits, all flags, all other registers and memory, PC). Non-trivial = the operation changes the operand bit or a flag; distinct by (form, registers, operand byte, bit number, C).";
+    stats.merge(crate::checks::soup::phase(ctx, P, crate::checks::soup::Flavor::Bit, ctx.tier.pick(300000, 6000000), 0x4510000, false));
+    let rule_soup = format!("{}{}", rule, crate::checks::soup::RULE);
+    let rule: &str = &rule_soup;
     finish(ctx, P, stats, rule, vec!["reference model transcribed from the H8/300H programming manual (DESIGN 1.3, Appendix A.4)".into()], extra)
 }
